@@ -142,6 +142,13 @@ pub fn restrict_to_version(f: &Facts, v: u8) -> Facts {
         g.recs[ORPHA].clear();
         g.ann_calls.retain(|c| c.kind as usize != ORPHA);
     }
+    // the replacement field of a term record holds 0 for "no replacement": HP:0000000 as a replacement is not
+    // expressible in any version of the format
+    for t in &mut g.terms {
+        if t.replacement == Some(0) {
+            t.replacement = None;
+        }
+    }
     g
 }
 
